@@ -214,11 +214,28 @@ let cmd_vcd (args : string list) : string =
      | _ -> "BADMODE")
   | _ -> "BADCASE"
 
+
+(* ---- fstw <tpe> <idx:hexvalue,...> ---- *)
+let cmd_fstw (args : string list) : string =
+  match args with
+  | [tpe; changes] ->
+    let tpe = sig_enc_of tpe in
+    let changes = Stdlib.List.map (fun c ->
+      let (idx, v) = split2 ':' c in
+      let fv = (match tpe with
+        | WaveMem.EncReal -> FstLoad.FvReal (Stdlib.List.rev (bytes_of_hex v))
+        | _ -> FstLoad.FvString (bytes_of_hex v)) in
+      (n_of_hex idx, fv)) (split_on ',' changes) in
+    let sw = get (FstLoad.sw_run (FstLoad.sw_new tpe) changes) in
+    "s0=" ^ signal_obs (FstLoad.sw_finish sw)
+  | _ -> "BADCASE"
+
 let dispatch (cmd : string) (args : string list) : string =
   match cmd with
   | "offsets" -> cmd_offsets args
   | "enc" -> cmd_enc args
   | "body" -> cmd_body args
+  | "fstw" -> cmd_fstw args
   | "vcd" -> cmd_vcd args
   | _ -> "UNSUPPORTED"
 
